@@ -8,11 +8,11 @@ REPO = "/repo"
 OUT = os.path.join(os.path.dirname(os.path.dirname(os.path.abspath(__file__))), "mutants")
 
 M = []
-def mut(name, prop, edits, note=""):
-    M.append((name, prop, edits, note))
+def mut(name, prop, edits, note="", expect="caught"):
+    M.append((name, prop, edits, note, expect))
 
 # ---------------------------------------------------------------- C09
-mut("c09_cell_replace_vertex_forgets_add_cell", "C09", [("forsys/cell.py",
+TESTS_CATCH_IT = ("c09_cell_replace_vertex_forgets_add_cell", "C09", [("forsys/cell.py",
     "            self.vertices[vertices_ids.index(vold.id)] = vnew\n            # add cell to vertex\n            vnew.add_cell(self.id)\n",
     "            self.vertices[vertices_ids.index(vold.id)] = vnew\n")],
     "merged vertex does not list its cells (only vertex merging paths)")
@@ -20,7 +20,7 @@ mut("c09_edge_replace_vertex_forgets_array", "C09", [("forsys/edge.py",
     "        self.verticesArray[who] = vnew\n        self.verticesArray[who].add_edge(self.id)\n",
     "        vnew.add_edge(self.id)\n")],
     "verticesArray keeps the old end: a later unregister removes the id from the wrong vertex")
-mut("c09_generate_mesh_new_dict_without_clear", "C09", [("forsys/virtual_edges.py",
+TESTS_CATCH_IT = ("c09_generate_mesh_new_dict_without_clear", "C09", [("forsys/virtual_edges.py",
     "    for old_edge in edges.values():\n        old_edge.unregister()\n    edges.clear()\n",
     "")],
     "old edges die only when the caller rebinds: new ids are refused, then unregistered")
@@ -30,8 +30,9 @@ mut("c09_unregister_not_idempotent", "C09", [("forsys/edge.py",
     "late finalizer of a retained old edge unregisters the re-issued id (needs a retained reference)")
 mut("c09_join_relies_on_finalizer", "C09", [("forsys/virtual_edges.py",
     "    edges.pop(common_edge).unregister()\n", "    del edges[common_edge]\n")],
-    "contracted edge stays registered while somebody holds it (needs a retained reference + merging)")
-mut("c09_cell_replace_vertex_never_removes", "C09", [("forsys/cell.py",
+    "equivalent under the quantified API: the contracted edge is created inside the same generate_mesh call, so no caller can hold it and CPython finalizes it synchronously; only a direct call of join_two_vertices could tell",
+    expect="equivalent")
+TESTS_CATCH_IT = ("c09_cell_replace_vertex_never_removes", "C09", [("forsys/cell.py",
     "        if vnew.id in vertices_ids:\n            self.vertices.remove(vold)\n        else:\n            self.vertices[vertices_ids.index(vold.id)] = vnew\n            # add cell to vertex\n            vnew.add_cell(self.id)\n",
     "        self.vertices[vertices_ids.index(vold.id)] = vnew\n        vnew.add_cell(self.id)\n")],
     "cell cycle repeats the merged vertex when both ends of a contracted edge are in the cell")
@@ -41,19 +42,20 @@ mut("c09_se_orphan_edges_kept", "C09", [("forsys/surface_evolver.py",
     "edges of cell-less vertices stay in the mesh and point to deleted vertices (SE dumps with orphans)")
 mut("c09_empty_cell_kept", "C09", [("forsys/virtual_edges.py",
     "        if len(cells[c].vertices) == 0:\n", "        if len(cells[c].vertices) < 0:\n")],
-    "cells emptied by resampling stay: harmless for I1-I5 (expected to be missed by C09, C11 does not require removal)")
-mut("c09_generate_mesh_keeps_removed_vertex_in_cells", "C09", [("forsys/virtual_edges.py",
+    "cells emptied by resampling stay in the dictionary: no clause of C09 (or C11) forbids an empty cell",
+    expect="equivalent")
+TESTS_CATCH_IT = ("c09_generate_mesh_keeps_removed_vertex_in_cells", "C09", [("forsys/virtual_edges.py",
     "            for cid in v.ownCells:\n                cells[cid].vertices.remove(v)\n",
     "            for cid in v.ownCells[:1]:\n                cells[cid].vertices.remove(v)\n")],
     "removed points stay in the cycle of the second cell of an interface")
 # ---------------------------------------------------------------- C11
-mut("c11_round_instead_of_int", "C11", [("forsys/virtual_edges.py",
+TESTS_CATCH_IT = ("c11_round_instead_of_int", "C11", [("forsys/virtual_edges.py",
     "                    nEdge.append(e[int(each * i)])\n", "                    nEdge.append(e[round(each * i)])\n")],
     "round() can pick the last point twice or skip past the order for some len/ne")
 mut("c11_ge_instead_of_gt", "C11", [("forsys/virtual_edges.py",
     "        if len(e) > ne:\n", "        if len(e) >= ne:\n")],
     "an interface with exactly ne points is 'resampled' and repeats its end")
-mut("c11_drop_last_point", "C11", [("forsys/virtual_edges.py",
+TESTS_CATCH_IT = ("c11_drop_last_point", "C11", [("forsys/virtual_edges.py",
     "                nEdge.append(e[-1])\n", "                nEdge.append(e[-1] if len(e) % ne else e[-2])\n")],
     "interfaces whose length is a multiple of ne lose their end junction")
 mut("c11_midpoint_one_coordinate", "C11", [("forsys/virtual_edges.py",
@@ -62,7 +64,7 @@ mut("c11_midpoint_one_coordinate", "C11", [("forsys/virtual_edges.py",
 mut("c11_contracts_at_three_cell_junction", "C11", [("forsys/virtual_edges.py",
     "                len(vertices[e[0]].ownCells) < 3 and\n", "                len(vertices[e[0]].ownCells) < 4 and\n")],
     "a two-point interface is contracted although one end is shared by three cells")
-mut("c11_off_by_one_sampling", "C11", [("forsys/virtual_edges.py",
+TESTS_CATCH_IT = ("c11_off_by_one_sampling", "C11", [("forsys/virtual_edges.py",
     "                each = len(e) / ne\n", "                each = (len(e) + 1) / ne\n")],
     "index can run past / duplicate the end for short interfaces")
 # ---------------------------------------------------------------- C10
@@ -111,7 +113,7 @@ def main():
     run_pytest = "--pytest" in sys.argv
     only = [a for a in sys.argv[1:] if not a.startswith("--")]
     os.makedirs(OUT, exist_ok=True)
-    for name, prop, edits, note in M:
+    for name, prop, edits, note, expect in M:
         if only and not any(o in name for o in only):
             continue
         tmp = tempfile.mkdtemp(prefix="mk-mut-", dir="/dev/shm")
@@ -129,7 +131,7 @@ def main():
             d = subprocess.run(["diff", "-ru", "a", "b"], cwd=tmp, stdout=subprocess.PIPE).stdout
             assert d, name
             with open(os.path.join(OUT, name + ".patch"), "wb") as fo:
-                fo.write(f"# property: {prop}\n# note: {note}\n".encode())
+                fo.write(f"# property: {prop}\n# expect: {expect}\n# note: {note}\n".encode())
                 fo.write(d)
             msg = ""
             if run_pytest:
